@@ -338,8 +338,11 @@ def _gen_blocks(rng, tier):
         for _o in range(rng.randint(2, 3)):
             kind = rng.choice(["rectangular", "delaunay", "func"])
             if kind == "func":
-                objs.append({"kind": "func", "matrix": nrng.random((n, rng.randint(1, 2))), "scheme": None, "params": None,
-                             "source": None, "mesh_shape": None, "mesh_points": None})
+                # a list of linear functions may carry a regularization of its own (neighbouring functions smoothed with one
+                # another through the `neighbors` chain the base class provides): its block is then that scheme's matrix
+                sch = rng.choice([None, None, "Constant", "Zeroth", "ConstantZeroth"])
+                objs.append({"kind": "func", "matrix": nrng.random((n, rng.randint(1, 3) if sch else rng.randint(1, 2))), "scheme": sch,
+                             "params": _params(rng, sch) if sch else None, "source": None, "mesh_shape": None, "mesh_points": None})
                 continue
             src = g * rng.choice([0.5, 1.0]) + 0.05 * nrng.normal(size=g.shape) + nrng.normal(size=2)
             o = {"kind": kind, "matrix": None, "source": src, "mesh_shape": None, "mesh_points": None}
@@ -367,7 +370,7 @@ def _gen_blocks(rng, tier):
 def inversion_block_order(mask, sub, adapt, data, noise, objects, use_w_tilde):
     """C07: 'An object without regularization contributes an all-zero block and blocks are placed in the order of the
     linear objects' -- aa.Inversion(...).regularization_matrix for 2-3 linear objects (rectangular / Delaunay mappers
-    with any of the nine schemes or none, linear-function objects without regularization) in both formalisms; block k
+    with any of the nine schemes or none, linear-function lists without regularization or with Constant / Zeroth / ConstantZeroth) in both formalisms; block k
     must equal scheme_k.regularization_matrix_from(object_k) (zeros if none), everything off the blocks zero;
     regularization_matrix_reduced = the same with the unregularized objects' rows/columns removed; masks <= 6x6 with a masked outer ring; 900 (12000) cases."""
     import autoarray as aa
@@ -383,7 +386,7 @@ def inversion_block_order(mask, sub, adapt, data, noise, objects, use_w_tilde):
         reg = _reg(aa, o["scheme"], o["params"]) if o["scheme"] is not None else None
         if o["kind"] == "func":
             objs.append(aa.m.MockLinearObjFuncList(parameters=o["matrix"].shape[1], grid=None,
-                                                   mapping_matrix=o["matrix"].copy()))
+                                                   mapping_matrix=o["matrix"].copy(), regularization=reg))
         else:
             objs.append(_mapper(aa, mask, sub, o["source"], adapt, o["mesh_shape"], o["mesh_points"], regularization=reg))
         regs.append(reg)
